@@ -60,8 +60,21 @@ def main(argv):
             if not isinstance(refs, list):
                 run.hist("model_status", str(refs))
                 continue
+            # the Lean model of the serializer python.rs emits (Pdlv.Py.encBody), compared with serialize() below
+            mser = be.model(i, T, [{"k": "pyenc", "v": v} for v in vals])
+            mser = mser if isinstance(mser, list) else [None] * len(vals)
             seeds = []
-            for v, rf in zip(vals, refs):
+            for (v, rf), ms in zip(zip(vals, refs), mser):
+                if ms is not None and not (ms.get("r") == "panic" and ms.get("h") in ("badLayout", "badValue")):
+                    rs = be.ask(i, T, "enc", v)
+                    if rs.get("r") in ("ok", "err", "exception"):
+                        same = (rs.get("r") == "ok") == (ms.get("r") == "ok") and (rs.get("r") != "ok" or rs.get("hex") == ms.get("hex"))
+                        run.hist("py_serializer_model", "agree" if same else "disagree")
+                        if not same:
+                            run.violation("corr", "the model of the emitted Python serializer (Pdlv.Py.encBody) and serialize() disagree on %s: %s vs %s"
+                                          % (T, ms.get("r"), rs.get("r")),
+                                          {"pdl": d["text"], "type": T, "value": v, "python": rs, "model": ms,
+                                           "corr": "corr:C13/py-serializer-model"}, found_input=False)
                 if rf.get("r") != "ok":
                     continue
                 run.case((d["text"], T, W.canon(v)))
